@@ -42,9 +42,11 @@ URI = 'radio://0/80/2M'
 class World:
     """real Crazyflie + device simulator (contract-side, back-end agnostic)"""
 
-    def __init__(self, c, n_params=1):
+    def __init__(self, c, n_params=1, needs_resending=False):
         self.c = c
         c.virtual_time()
+        if needs_resending:
+            c.use_stubs(CF, ['Timer'])      # retry timers are recorded; the contract decides when one fires
         self.cf = c.new(CF + ':Crazyflie')
         self.n_params = n_params
         self.links = []
@@ -64,7 +66,7 @@ class World:
                 return None
             if self.driver_mode == 'raise':
                 return c.raiser('OSError', 'dongle not found')()
-            ln = c.ext('link%d' % len(self.links), attrs={'needs_resending': False})
+            ln = c.ext('link%d' % len(self.links), attrs={'needs_resending': needs_resending})
             self.links.append(ln)
             self.answered = 0
             return ln
@@ -244,6 +246,34 @@ def _interrupted(how):
 
 for _h in ('error', 'close', 'error-twice'):
     _interrupted(_h)
+
+
+@contract('C02', 'reconnect.stale-retry-timers', LIFE_F + [CF + ':Crazyflie.send_packet', CF + ':Crazyflie._no_answer_do_retry'],
+          clause='the same Crazyflie object can connect again: retry timers of requests that were still unanswered when the application closed '
+                 'the link (close_link does not cancel them) fire during the next attempt without blocking it or sending anything of the old attempt',
+          bounded='link without delivery guarantee (needs_resending), close after k = 1..8 exchanged packets, every pending timer fires right '
+                  'after the next open_link; device with 1 parameter')
+def stale_retry_timers(c):
+    w = World(c, 1, needs_resending=True)
+    kk = c.choice('k', list(range(1, 9)))
+    c.call((w.cf, 'open_link'), URI)
+    w.run_until_quiet(stop_after=kk)
+    c.snapshot('stale', "tuple(t[1][1] for t in sent('Timer') if any(is_same(t[2]['timer'], v) for v in cf._answer_patterns.values()))")
+    n_stale = c.concretize('len(stale)')
+    c.call((w.cf, 'close_link'))
+    c.require('raised is None')
+    c.reset_trace()
+    c.call((w.cf, 'open_link'), URI)
+    c.require('raised is None')
+    c.snapshot('n_sent', "len(sent('link1.send_packet'))")
+    for i in range(n_stale):
+        c.call(c.get('stale')[i] if isinstance(c.get('stale'), tuple) else c.get('stale'))
+        c.ensure('stale-timer-%d-returns' % i, 'raised is None')
+    c.ensure('nothing-of-the-old-attempt-is-sent', "len(sent('link1.send_packet')) == n_sent and len(sent('link0.send_packet')) == 0")
+    c.ensure('send-lock-free', 'not cf._send_lock.locked()')
+    w.run_until_quiet()
+    c.let('again', w.events())
+    c.ensure('reconnect-complete-and-ordered', 'again == %r' % (FULL,))
 
 
 @contract('C02', 'reconnect-from-callback', LIFE_F,
